@@ -48,7 +48,9 @@ def r1(ctx, rep):
     f = syn.fn("resolve_special_func", crate="prqlc")
     loc = None
     for n in walk(f["body"]):
-        if n.get("k") == "local" and n.get("init", {}).get("k") == "if" and show(n["pat"]) == "(kind, start, end)":
+        # (by role, not by name: the 3-tuple bound from an if-chain whose branches build (WindowKind::.., start, end))
+        if n.get("k") == "local" and n.get("init", {}).get("k") == "if" and n["pat"].get("k") == "p_tuple" and len(n["pat"]["e"]) == 3 \
+                and any(x.get("k") == "path" and x["p"].startswith("WindowKind::") for x in walk(n["init"])):
             loc = n
     if loc is None:
         raise AnchorMissing("resolve_special_func: `let (kind, start, end) = if ..` of the window transform")
@@ -99,18 +101,28 @@ def r2(ctx, rep):
     rep.rule("C04.R2", "frame bounds: 0 = CURRENT ROW, n>0 = n FOLLOWING, n<0 = -n PRECEDING, open = UNBOUNDED; ROWS/RANGE kept", floor=6)
     syn = ctx.syn
     f = syn.fn("gen_expr::try_into_window_frame", crate="prqlc")
-    pb = None
-    for n in walk(f["body"]):
-        if n.get("k") == "item_fn" and n["name"] == "parse_bound":
-            pb = n
-    if pb is None:
-        raise AnchorMissing("try_into_window_frame::parse_bound")
+    # by role: the match (in a nested fn, a closure or inline) whose arms build WindowFrameBound variants from an integer
     m = None
-    for mm in matches_of(pb["body"]):
-        if show(mm["e"]) == "as_int":
+    for mm in matches_of(f["body"]):
+        arms_txt = " ".join(show(a["body"], maxdepth=6) for a in mm["arms"])
+        if "WindowFrameBound::CurrentRow" in arms_txt and "WindowFrameBound::Following" in arms_txt and "WindowFrameBound::Preceding" in arms_txt:
             m = mm
     if m is None:
-        raise AnchorMissing("parse_bound: match as_int")
+        raise AnchorMissing("try_into_window_frame: the match that turns an integer bound into CURRENT ROW / FOLLOWING / PRECEDING")
+    bound_fn = None
+    par_ = __import__("guards").parents(f["body"])
+    cur = m
+    while id(cur) in par_:
+        cur = par_[id(cur)]
+        if cur.get("k") == "item_fn":
+            bound_fn = cur["name"]
+            break
+        if cur.get("k") == "closure":
+            p2 = par_.get(id(cur))
+            if p2 is not None and p2.get("k") == "local":
+                bound_fn = show(p2["pat"])
+            break
+    bound_fn = bound_fn or "parse_bound"
     rows = {}
     for arm in m["arms"]:
         for alt in pat_alts(arm["pat"]):
@@ -125,8 +137,9 @@ def r2(ctx, rep):
             rows[str(h)] = (ctor, arg)
     rep.check(rows.get("('lit', '0')") == ("CurrentRow", None), "bound:0", f"bound 0 must be CURRENT ROW; found {rows.get(chr(40)+repr('lit')+', '+repr('0')+chr(41))}", file=f["file"], line=m["l"], fn=f["path"])
     pos = [v for k, v in rows.items() if k.startswith("('range', 1, None")]
-    rep.check(pos == [("Following", "as_int")], "bound:positive", f"positive bounds (1..) must be `n FOLLOWING` with n = the bound; found {pos}", file=f["file"], line=m["l"], fn=f["path"])
-    rep.check(rows.get("_") == ("Preceding", "-as_int"), "bound:negative", f"negative bounds must be `-n PRECEDING`; found {rows.get('_')}", file=f["file"], line=m["l"], fn=f["path"])
+    scrut = show(m["e"])
+    rep.check(pos == [("Following", scrut)], "bound:positive", f"positive bounds (1..) must be `n FOLLOWING` with n = the bound; found {pos}", file=f["file"], line=m["l"], fn=f["path"])
+    rep.check(rows.get("_") in (("Preceding", "-" + scrut), ("Preceding", f"(-{scrut})")), "bound:negative", f"negative bounds must be `-n PRECEDING`; found {rows.get('_')}", file=f["file"], line=m["l"], fn=f["path"])
     # units and open ends
     um = None
     for mm in matches_of(f["body"]):
@@ -144,11 +157,11 @@ def r2(ctx, rep):
     if st is None:
         raise AnchorMissing("try_into_window_frame: WindowFrame literal")
     sb = st["start_bound"]
-    ok_s = sb.get("k") == "if" and "frame.range.start" in show(sb["c"]) and "parse_bound(start)" in show_stmts(sb["t"]) and show(tail_expr(sb["e"])) == "WindowFrameBound::Preceding(None)"
+    ok_s = sb.get("k") == "if" and "frame.range.start" in show(sb["c"]) and f"{bound_fn}(start)" in show_stmts(sb["t"]) and show(tail_expr(sb["e"])) == "WindowFrameBound::Preceding(None)"
     rep.check(ok_s, "open-start", "a missing start bound must be UNBOUNDED PRECEDING", file=f["file"], line=sb.get("l"), fn=f["path"])
     eb = st["end_bound"]
     inner = eb["a"][0] if eb.get("k") == "call" and eb["a"] else eb
-    ok_e = inner.get("k") == "if" and "frame.range.end" in show(inner["c"]) and "parse_bound(end)" in show_stmts(inner["t"]) and show(tail_expr(inner["e"])) == "WindowFrameBound::Following(None)"
+    ok_e = inner.get("k") == "if" and "frame.range.end" in show(inner["c"]) and f"{bound_fn}(end)" in show_stmts(inner["t"]) and show(tail_expr(inner["e"])) == "WindowFrameBound::Following(None)"
     rep.check(ok_e, "open-end", "a missing end bound must be UNBOUNDED FOLLOWING", file=f["file"], line=eb.get("l"), fn=f["path"])
 
 
@@ -192,12 +205,32 @@ def r3(ctx, rep):
     for n in walk(f["body"]):
         if n.get("k") == "struct" and last_seg(n["p"]) == "WindowSpec":
             wf = {a: b for a, b in n["f"]}.get("window_frame")
-    ok = wf is not None and wf.get("k") == "if" and show(wf["c"]) == "(supports_frame && (window.frame != default_frame))" \
-        and "try_into_window_frame(window.frame)" in show_stmts(wf["t"]) and show(tail_expr(wf["e"])) == "None"
+    # (locals inlined: `supports_frame` and `default_frame` may be named anything or not at all)
+    import alpha
+    A = alpha.Inliner(f)
+    ok = False
+    sf_ok = False
+    if wf is not None and wf.get("k") == "if":
+        c = wf["c"]
+        while c.get("k") == "paren":
+            c = c["e"]
+        if c.get("k") == "bin" and c["op"] == "&&":
+            left, right = c["lhs"], c["rhs"]
+            # left conjunct: matches!(<expr>, ..window_frame: true..)
+            l = left
+            for _ in range(4):
+                if l.get("k") == "path" and "::" not in l["p"]:
+                    i = A._init_of(l, l["p"])
+                    if i is None:
+                        break
+                    l = i
+                else:
+                    break
+            sf_ok = l.get("k") == "macro" and l.get("n") == "matches" and "window_frame: true" in show_pat(l["pat"])
+            rt = A.show(right).replace(" ", "")
+            ok = sf_ok and rt.startswith("(window.frame!=") and "try_into_window_frame(window.frame)" in show_stmts(wf["t"]) and show(tail_expr(wf["e"])) == "None"
     rep.check(ok, "elision", "the frame may be omitted only when the function has no frame or the frame equals the default", file=f["file"], line=f["l"], fn=f["path"])
-    sf = [n for n in f["body"]["s"] if n.get("k") == "local" and show(n["pat"]) == "supports_frame"]
-    ok = bool(sf) and sf[0]["init"].get("k") == "macro" and sf[0]["init"]["n"] == "matches" and "window_frame: true" in show_pat(sf[0]["init"]["pat"])
-    rep.check(ok, "supports_frame", "supports_frame must be the template's window_frame annotation", file=f["file"], line=f["l"], fn=f["path"])
+    rep.check(sf_ok, "supports_frame", "the first conjunct of the elision test must be the template's window_frame annotation (`matches!(expr, ..window_frame: true..)`)", file=f["file"], line=f["l"], fn=f["path"])
     # sibling: create_filter_by_row_number builds the same pair
     g = syn.fn("preprocess::create_filter_by_row_number", crate="prqlc")
     node = None
